@@ -2,7 +2,7 @@
 spec/ServerGuards.tla (abstract: Expected sets + event machine), spec/TimeoutWriterImpl.tla (mechanism of
 api/handler/timeouthandler.go), spec/ServerGuardsGen.tla (scenario generator) -> replay through the chain
 that api.NewServer/engine.bindRoute composes (recorder, loopback httptest server, started api.Server) and
-through a real rpc server on loopback."""
+through a real rpc server on loopback (gRPC code and, for late handlers, the time the answer arrives)."""
 import json
 from vlib import core
 
@@ -22,14 +22,17 @@ META = dict(
          "enter/release histories and the RPC scenarios; Go drivers serve them through the chain composed by api.NewServer + "
          "engine.bindRoutes on a ResponseRecorder, on a loopback httptest.Server and on a started api.Server (http.Server settings of "
          "engine.withTimeout included), and through rpc.NewServer / rpc.setupInterceptors on loopback gRPC, and compare status, handler "
-         "headers and handler bytes (gRPC code) with the allowed set. Handlers are gated on ctx.Done, so no verdict races a timer; "
+         "headers and handler bytes (gRPC code) with the allowed set. Scripts may also end in WriteHeader(0/99/1000), a panic raised "
+         "inside the response writer; a request without any response for 20 s is reported as a hung client with the goroutines "
+         "inside the chain. RPC handlers that overrun may honour their context, ignore it for 1.5 s or never end: the answer must "
+         "arrive at the deadline/cancel (client within 1 s of a 150 ms time-out; observer interceptor within 1 s of the cancel). Handlers are gated on ctx.Done, so no verdict races a timer; "
          "real-time probes (handler ending at 0.5 T and 0.95 T of a 2 s Config.Timeout; 2 s deadline on the started server) keep "
          ">= 100 ms from every boundary, must reproduce 3 times and are discarded when the machine stalls.",
     note="Trusted: TLC, net/http and grpc-go clients, the gated handler. Not covered: the stress trace validation of DESIGN 4/C02(c) "
          "(no vhook points in timeouthandler.go) - replaced by boundary scenarios (random sleeps around a 20 ms deadline, either "
          "outcome accepted, never a mix; -race in the thorough tier); client cancel (499 / Canceled) is observed on the recorder and "
          "by a server-side observer interceptor only, not over a real HTTP connection; websocket upgrade bypass, TLS, streaming RPC, "
-         "1xx/204/304 statuses, invalid status codes, per-route time-outs longer than Config.Timeout on a started server; handlers that "
+         "1xx/204/304 statuses, per-route time-outs longer than Config.Timeout on a started server; handlers that "
          "outlive their deadline keep running although their MaxConns token was returned (inherent to Go; `inside` counts unanswered "
          "requests). The breaker in the chain is kept from shedding with the mathx coin hook; scenarios share one engine with "
          "MaxConns=10000. Bounds: scripts <= 2 (quick) / 3 (thorough) steps over 2 headers, 2 codes, 2-3 chunks (one 70 KB), "
@@ -93,6 +96,12 @@ def rest_cases(ctx):
              Reqs='{Req(c, <<HdrStep("h1"), StatusStep(201), WriteStep("a")>>, t) : c \\in {0,15,16,17,63,64,65,300}, t \\in Terms}',
              Cfgs="{[maxConns |-> 1, maxBytes |-> 16], [maxConns |-> 1, maxBytes |-> 64]}")
     cl = [json.loads(x) for x in cl]
+    # handlers that end in WriteHeader(invalid status code) - a panic raised inside the response writer
+    bad = gen(ctx, "gen-badcode", "script", Hdrs='{"h1"}', Codes="{201}", Chunks='{"a","big"}',
+              Reqs="AllReqsT({0}, %d, BadTerms)" % (1 if ctx.quick else 2))
+    bad = [json.loads(x) for x in bad]
+    ctx.notes["scenarios_invalid_status"] = len(bad)
+    scr += bad
     ctx.notes["scenarios_script"] = len(scr)
     ctx.notes["scenarios_content_length"] = len(cl)
     for m in scr + cl:
@@ -166,7 +175,7 @@ def run_rpc(ctx):
     cases = []
     for a in arr:
         cases += json.loads(a)
-    cases.sort(key=lambda m: (m["beh"], m["late"], m["cause"]))
+    cases.sort(key=lambda m: (m["wait"] in ("sleep", "never"), m["beh"], m["late"], m["cause"], m["wait"]))
     ctx.notes["scenarios_rpc"] = len(cases)
     path, n = ctx.write_cases("rpc.ndjson", cases)
     ctx.samples += core.sample_of(cases, 1)
